@@ -65,7 +65,7 @@ func genText(r *rand.Rand, noFault bool) *Text {
 
 	// placement
 	places := []string{PlTop, PlTop, PlIf, PlElseIf, PlElse, PlFor, PlForRange, PlNested2, PlNested2}
-	if t.Carrier == CarPlain {
+	if t.Carrier == CarPlain && t.Fault.Kind != kStmt {
 		places = append(places, PlConc, PlConc)
 	}
 	place := places[r.Intn(len(places))]
@@ -73,7 +73,7 @@ func genText(r *rand.Rand, noFault bool) *Text {
 	if place == PlNested2 {
 		outer = blockKinds[r.Intn(len(blockKinds))]
 		inners := blockKinds
-		if t.Carrier == CarPlain {
+		if t.Carrier == CarPlain && t.Fault.Kind != kStmt {
 			inners = append(append([]string{}, blockKinds...), PlConc)
 		}
 		inner = inners[r.Intn(len(inners))]
@@ -177,7 +177,7 @@ func genText(r *rand.Rand, noFault bool) *Text {
 func (g *gen) decoy(f Fault) {
 	var body string
 	switch f.Kind {
-	case kAssign, kAssignOnly:
+	case kAssign, kAssignOnly, kStmt:
 		body = f.Text
 		if f.Kind == kAssignOnly {
 			body = g.newVar("dq") + " = " + f.Text
@@ -207,7 +207,7 @@ func healthyStandIn(f Fault, carrier string) Fault {
 		}
 	case kCall:
 		h.Text = "two(1, 2)"
-	case kAssign:
+	case kAssign, kStmt:
 		h.Text = "Obj.I = 3"
 	case kRange:
 		h.Text = "Items"
@@ -464,7 +464,7 @@ func (g *gen) carrier(depth int, t *Text) {
 	switch t.Carrier {
 	case CarPlain:
 		switch f.Kind {
-		case kAssign:
+		case kAssign, kStmt:
 			g.fault(depth, f.Text)
 		case kCall:
 			if r.Intn(2) == 0 {
